@@ -1,6 +1,7 @@
 package gosym
 
 import (
+	"encoding/json"
 	"fmt"
 	"go/token"
 	"go/types"
@@ -31,6 +32,14 @@ func (i *interpreter) globalCell(g *ssa.Global) *value {
 			cell = prov(i, g)
 		} else if strings.HasPrefix(g.Name(), "init$guard") {
 			cell = false
+		} else if interpretable[g.Pkg.Pkg.Path()] {
+			// tables and constants of library packages whose code is interpreted (unicode/utf8,
+			// strconv, ...): run that package's own initialiser once; they are never written afterwards
+			c := new(value)
+			*c = zero(mustDeref(g.Type()))
+			i.globals[g] = c
+			i.initDependency(g.Pkg)
+			return c
 		} else {
 			panic(unsupported{"read of dependency global " + name})
 		}
@@ -56,6 +65,20 @@ func (i *interpreter) ensureInit(p *ssa.Package) {
 	}
 }
 
+// initDependency runs the variable initialisers of an interpreted library package (the
+// initialisers of the packages it imports are not run: their globals are initialised on demand).
+func (i *interpreter) initDependency(p *ssa.Package) {
+	if i.inited[p] {
+		return
+	}
+	i.inited[p] = true
+	p.Build()
+	if f := p.Func("init"); f != nil {
+		i.forceInit = f
+		call(i, nil, token.NoPos, f, nil)
+	}
+}
+
 // index returns a concrete, bounds-checked index (a symbolic index is concretised by forking).
 func (ps *pathState) index(idx value, n int) int {
 	var k int64
@@ -64,6 +87,8 @@ func (ps *pathState) index(idx value, n int) int {
 		var inb *smt.Term
 		if kindSigned(s.k) {
 			inb = smt.And(smt.BvCmp(smt.OpBvSle, smt.BV(0, w), s.t), smt.BvCmp(smt.OpBvSlt, s.t, smt.BV(uint64(n), w)))
+		} else if w < 64 && uint64(n) >= uint64(1)<<uint(w) {
+			inb = smt.True // every value of the index type is in range
 		} else {
 			inb = smt.BvCmp(smt.OpBvUlt, s.t, smt.BV(uint64(n), w))
 		}
@@ -136,8 +161,8 @@ func typeHasPointers(t types.Type) bool {
 }
 
 type growKey struct {
-	size          int64
-	ptr           bool
+	size      int64
+	ptr       bool
 	l, c, add int
 }
 
@@ -418,6 +443,11 @@ func toNativeJSON(v value) any {
 	case iface:
 		if v.t == nil {
 			return nil
+		}
+		if isJSONNumber(v.t) {
+			if s, ok := v.v.(string); ok {
+				return json.Number(s)
+			}
 		}
 		return toNativeJSON(v.v)
 	case *omap:
